@@ -509,7 +509,7 @@ func blockedInFetch() int {
 	return cnt
 }
 
-const patience = 30 * time.Second
+const patience = 8 * time.Second
 
 // settle waits until every live fetcher goroutine of this run is inside Fetch and blocked there
 // (or no fetcher is inside Fetch).  Callers make sure no reporter is running.
@@ -893,18 +893,36 @@ func main() {
 		w.Flush()
 		os.Exit(rc)
 	}
+	failures := 0
 	emit := func(r result) {
 		fmt.Fprintf(w, "%s\t%d\t%s\t%s\t%s\t%s\t%s\n", r.id, r.nthr, r.history, r.trace, r.final, r.verdict, r.shape)
+		w.Flush()
+		if r.verdict != "ok" {
+			failures++
+		}
+	}
+	// a broken implementation makes every case wait for its time-outs: after a few failures the
+	// remaining cases of this process are not run (reported as skipped)
+	skip := func(id string) bool {
+		if failures >= 3 {
+			fmt.Fprintf(w, "%s\t0\t\t\t?\tskipped-after-failures\tskipped\n", id)
+			return true
+		}
+		return false
 	}
 	if *mode == "script" {
 		for _, line := range lines {
 			toks := strings.Fields(line)
-			emit(runScript("script:"+strings.Join(toks, "_"), toks))
+			if id := "script:" + strings.Join(toks, "_"); !skip(id) {
+				emit(runScript(id, toks))
+			}
 		}
 	} else {
 		for k := *from; k < *from+*runs; k++ {
 			r := &rng{s: *seed*1000003 + uint64(k)*7919}
-			emit(runConc(fmt.Sprintf("conc:seed=%d:run=%d", *seed, k), r))
+			if id := fmt.Sprintf("conc:seed=%d:run=%d", *seed, k); !skip(id) {
+				emit(runConc(id, r))
+			}
 		}
 	}
 }
